@@ -1,0 +1,15 @@
+//go:build verif
+
+package sync
+
+import "context"
+
+// VerifHook, when set by the conformance harness, is called at the yield points named in
+// /verif/MANIFEST.json (hooks). It may block: the harness uses it as a scheduler gate.
+var VerifHook func(ctx context.Context, point string, args ...uint64)
+
+func verifPoint(ctx context.Context, point string, args ...uint64) {
+	if h := VerifHook; h != nil {
+		h(ctx, point, args...)
+	}
+}
